@@ -85,6 +85,9 @@ class MetaRunner(object):
     async def _manage_runners(self):
         """Manage all runners inside the current `asyncio` event loop"""
         runner_tasks = await self._launch_runners()
+        # ``asyncio.run`` handles SIGINT without a wakeup fd: an interrupt arriving
+        # just before the event loop blocks goes unnoticed until the loop wakes up
+        keep_awake = asyncio.ensure_future(self._keep_awake())
         self.running.set()
         try:
             # wait for all runners to either stop gracefully or propagate errors
@@ -100,7 +103,14 @@ class MetaRunner(object):
             await asyncio.shield(self._aclose_runners(runner_tasks))
             raise
         finally:
+            keep_awake.cancel()
             self.running.clear()
+
+    @staticmethod
+    async def _keep_awake(interval: float = 0.2):
+        """Wake up the event loop regularly so that pending signals are handled"""
+        while True:
+            await asyncio.sleep(interval)
 
     async def _launch_runners(self) -> List[asyncio.Task]:
         """Launch all runners inside the current `asyncio` event loop"""
